@@ -270,3 +270,56 @@ func checkWorkerPool(p *core.Prog, r *core.Report) {
 	})
 	r.Check(okR, "C05.R1", "WorkerPool.Return/same-worker", "Return frees the slot whose worker is the one given back", "the freed slot is not selected by comparing its worker with the argument", p.Pos(rf.Pos()))
 }
+
+// checkShadowOnlyPending (C05.R1): markShadowedUnits writes unit states directly (setState, no guarded transition); the
+// only unit it may relabel Shadowed is one nobody is working on: Pending (or already Shadowed).  Relabelling a unit that
+// is PartialPresent, Merging or Scheduled loses that fact: a merge in flight is started a second time once the shadowing
+// job reports the unit, and a job in flight ends on an invalid transition.
+func checkShadowOnlyPending(p *core.Prog, r *core.Report) {
+	fn := p.Func(pkgStage, "Stages.markShadowedUnits")
+	r.Touch(core.FuncName(fn))
+	stT := p.Named(pkgStage, "UnitState")
+	val := map[string]string{}
+	for _, c := range core.EnumConsts(stT) {
+		val[c.Name()] = c.Val().ExactString()
+	}
+	setState := p.FuncObj(pkgStage, "Stages.setState")
+	getState := p.FuncObj(pkgStage, "Stages.getState")
+	for _, c := range core.FindInstrs(fn, core.IsCallTo(setState)) {
+		args := c.(ssa.CallInstruction).Common().Args
+		k, ok := args[len(args)-1].(*ssa.Const)
+		if !ok || k.Value == nil || k.Value.ExactString() != val["UnitShadowed"] {
+			continue
+		}
+		unit := args[1]
+		// edges on which the unit's own state is known to be Pending or Shadowed
+		var okEdges []core.Edge
+		core.Instrs(fn, func(in ssa.Instruction) {
+			ifi, isIf := in.(*ssa.If)
+			if !isIf {
+				return
+			}
+			for _, want := range []string{"UnitPending", "UnitShadowed"} {
+				onT, onF, okc := core.CondRelation(ifi.Cond, func(v ssa.Value) bool {
+					cc, ok := v.(*ssa.Call)
+					return ok && core.CommonCallee(cc.Common()) == getState && (sameUnit(cc.Call.Args[1], unit) || sameExpr(cc.Call.Args[1], unit, 2))
+				}, func(v ssa.Value) bool {
+					kk, ok := v.(*ssa.Const)
+					return ok && kk.Value != nil && kk.Value.ExactString() == val[want]
+				})
+				if !okc {
+					continue
+				}
+				if onT == core.OrdEQ {
+					okEdges = append(okEdges, core.Edge{From: ifi.Block(), Idx: 0})
+				}
+				if onF == core.OrdEQ {
+					okEdges = append(okEdges, core.Edge{From: ifi.Block(), Idx: 1})
+				}
+			}
+		})
+		q := core.PathQuery{Fn: fn, CutEdge: func(e core.Edge) bool { return containsEdge(okEdges, e) }}
+		_, reach := q.CanReach(nil, func(x ssa.Instruction) bool { return x == c })
+		r.Check(len(okEdges) > 0 && !reach, "C05.R1", "markShadowedUnits/only-pending", "a unit is relabelled Shadowed only when it was found Pending (or already Shadowed): a unit whose partial is present, being merged, or whose own job is running keeps its state", "setState(unit, Shadowed) is reachable for a unit in another state (only Completed and NoOp are excluded)", p.Pos(c.Pos()))
+	}
+}
